@@ -233,4 +233,212 @@ def c08(tier, repo=None):
     return code
 
 
-CHECKS = {"C08": c08}
+# ------------------------------------------------------------------------------------------------ C19
+
+def c19_tier(tier):
+    if tier == "quick":
+        return {"gens": [("dag", 3, 6), ("pregel", 3, 6), ("wf", 3, 6)], "per_mode": 170, "sim": [], "mc_shapes": 8, "mc_timeout": 150}
+    return {"gens": [("dag", 3, 6), ("pregel", 3, 6), ("wf", 3, 6)], "per_mode": 1300,
+            "sim": [("dag", 4, 8), ("pregel", 4, 8), ("wf", 4, 8)], "mc_shapes": 40, "mc_timeout": 1200}
+
+
+def classify19(sc, reason, obs):
+    parked = []
+    blocked = []
+    for ln in obs:
+        if ln.startswith('{"ev":"dump"'):
+            parked = json.loads(ln)["parked"]
+        if ln.startswith('{"ev":"settled"'):
+            blocked = json.loads(ln)["blocked"]
+    frame = parked[0] if parked else "-"
+    frame = frame.replace("compose.vflProduce", "producer").replace("compose.vflTransform", "producer")
+    if sc["mode"] == "wf" and sc["branch"] and sc["branch"][0]["from"] in blocked:
+        b = sc["branch"][0]
+        if True:
+            return "%s:%s/wf-branch-target-also-data-successor" % (reason, frame)
+    return "%s:%s/%s%s" % (reason, frame, sc["mode"], "+branch" if sc["branch"] else "")
+
+
+def plumbing_shapes(shapes):
+    """reader trees of the kind the engine builds: fan-out copies feeding merges (fan-in) and key conversions"""
+    out = []
+    for s in shapes:
+        ks = {n["k"] for n in s["nodes"]}
+        if s["nops"] == 2 and "copy" in ks and (("merge" in ks) or ("conv" in ks)) and len(s["nodes"]) <= 7 and "array" not in ks:
+            out.append(s)
+    return out
+
+
+def judge19(lines):
+    res = vlib.validate_traces("StreamRunObs", "StreamRunObs.cfg", lines, nproc=4, timeout=600)
+    notes = {}
+    for r in res["runs"]:
+        for t in r.tagged("NOTE"):
+            notes[t[0]] = t[2]
+    bad = {}
+    for cid, _ln, reason in res["bad"]:
+        bad.setdefault(cid, reason)
+    return bad, notes, res
+
+
+def c19(tier, repo=None):
+    t0 = time.time()
+    rnd = random.Random(vlib.SEED * 7919 + 19)
+    P = c19_tier(tier)
+    log("[C19] tier=%s seed=%d repo=%s" % (tier, vlib.SEED, repo or vlib.REPO))
+    # stream-level half on the model: no deadlock, sources closed exactly once, forwarders gone at the end, on plumbing-shaped trees
+    shapes, _ = streams.gen_shapes(2, 2, 7)
+    pl = plumbing_shapes(shapes)
+    rnd.shuffle(pl)
+    pl = pl[:P["mc_shapes"]]
+    ex = concurrent.futures.ThreadPoolExecutor(max_workers=1)
+    consts = {"Caps1": [0, 1], "MaxItems1": 2, "CapsN": [0, 1], "MaxItemsN": 1, "MaxItems3": 1, "ErrItems1": False, "ErrItemsN": False}
+    fut_mc = ex.submit(streams.model_check, pl, consts, workers=4, timeout=P["mc_timeout"])
+    scs, gstats, gen_states, gen_trans = [], [], 0, 0
+    for mode, n, me in P["gens"]:
+        fam, run = streams.gen_run_shapes(mode, n, me)
+        gen_states += run.distinct
+        gen_trans += run.generated
+        gstats.append({"mode": mode, "nodes": n, "max_edges": me, "scenario_shapes": len(fam), "tlc_distinct": run.distinct, "exhaustive_enumeration": True,
+                       "replayed": min(len(fam), P["per_mode"])})
+        rnd.shuffle(fam)
+        # stratified slice: half of it scenarios with a stream branch (the rarer, richer family)
+        withb = [x for x in fam if x["branch"]][:P["per_mode"] // 2]
+        scs += withb + [x for x in fam if not x["branch"]][:P["per_mode"] - len(withb)]
+    for mode, n, me in P["sim"]:
+        fam, run = streams.gen_run_shapes(mode, n, me, simulate="num=400", depth=14, seed=vlib.SEED)
+        gen_states += run.generated
+        gen_trans += run.generated
+        gstats.append({"mode": mode, "nodes": n, "max_edges": me, "scenario_shapes": len(fam), "tlc_generated": run.generated,
+                       "exhaustive_enumeration": False, "replayed": len(fam)})
+        scs += fam
+    cases = streams.decorate_run(scs, rnd, prefix="L")
+    by_id = {c["id"]: c for c in cases}
+    log("  %d streaming-run scenarios (TLC StreamRun, %d states): %s" % (len(cases), gen_states, ", ".join("%s/%d:%d" % (g["mode"], g["nodes"], g["scenario_shapes"]) for g in gstats)))
+    lines, wall_go = streams.run_leak(cases, repo=repo)
+    log("  ran %d scenarios on the real engine (%d lifecycle lines, %.0fs)" % (len(cases), len(lines), wall_go))
+    bad, notes, res = judge19(lines)
+    idx = streams.index_cases(lines)
+    malformed = {k: v for k, v in bad.items() if v.startswith("malformed") or v == "no-case"}
+    if malformed:
+        k = sorted(malformed)[0]
+        raise Inconclusive("lifecycle trace malformed (harness problem): %s %s\n%s" % (k, malformed[k], "\n".join(idx[k][1][:20])))
+    failed = [k for k, v in notes.items() if v == "run-failed"]
+    if len(failed) > len(cases) // 10:
+        k = failed[0]
+        raise Inconclusive("%d scenarios failed to run (outside the scope of the statement), e.g. %s\n%s" % (len(failed), k, "\n".join(idx[k][1][:12])))
+    # self-test of the binding: corrupt one field / drop one line of a recorded trace
+    st = selftest19(lines, idx)
+    verdict = vlib.Verdict("C19")
+    confirmed, unrepro = [], 0
+    if bad:
+        again = [dict(by_id[cid], id=cid + "#r") for cid in list(bad)[:40]]
+        lines2, _ = streams.run_leak(again, repo=repo)
+        bad2, _, _ = judge19(lines2)
+        idx2 = streams.index_cases(lines2)
+        for cid in list(bad)[:40]:
+            if bad2.get(cid + "#r") == bad[cid]:
+                confirmed.append((cid, bad[cid], idx2[cid + "#r"][1]))
+            else:
+                unrepro += 1
+                log("  note: rejection of %s (%s) did not reproduce: not counted" % (cid, bad[cid]))
+    for cid, reason, obs in confirmed:
+        verdict.violation(classify19(by_id[cid], reason, obs), {"scenario": by_id[cid], "trace": obs}, reason)
+    code, n_new, n_known = verdict.finish()
+    timeouts = [k for k, v in notes.items() if v == "settle-timeout"]
+    if code == 0 and (timeouts or (bad and not confirmed)):
+        raise Inconclusive("%d scenarios did not settle in time without a parked goroutine, %d rejections did not reproduce" % (len(timeouts), unrepro))
+    mc = fut_mc.result()
+    if mc.timed_out:
+        raise Inconclusive("model check of the plumbing-shaped trees timed out")
+    vlib.tlc_must_pass(mc, "model check Streams.tla on plumbing-shaped trees")
+    log("  model: %d plumbing-shaped reader trees, %d distinct states, %.0fs: no deadlock, sources closed once, forwarders gone at the end" % (len(pl), mc.distinct, mc.wall_s))
+    sigs = set()
+    for cid, (c, ls) in idx.items():
+        if any('"ev":"send"' in ln for ln in ls):
+            sc = by_id[cid]
+            sigs.add(json.dumps([sc["mode"], sc["edges"], sc["branch"], [(n["kind"], n["cap"], n["k"], n["okey"], n["err"]) for n in sc["nodes"]], sc["handler"], sc["read"]]))
+    told = sum(1 for ln in lines if '"how":"told"' in ln)
+    some = [idx[k] for k in vlib.sample(sorted(idx.keys()), 3)]
+    cov = {"states": gen_states + mc.distinct + res["states"], "transitions": gen_trans + mc.generated + res["transitions"],
+           "traces_validated_against_impl": len(idx),
+           "samples": [{"scenario": by_id[c["id"]], "trace": [json.loads(x) for x in o[1:14]]} for c, o in some],
+           "evaluations": len(idx), "distinct_nontrivial": len(sigs),
+           "rule": "scenario shapes = every graph x node-kind assignment (x one stream branch) TLC enumerates from spec/StreamRun.tla in the bounds "
+                   "under `families` (a VERIF_SEED-chosen slice of them is replayed; -simulate samples for 4 nodes in the thorough tier); capacities, "
+                   "chunk counts, output keys, callback handlers (close / read one / drain), the caller's stopping point and an error chunk in "
+                   "chains are spread by VERIF_SEED; each scenario runs on the real engine, its lifecycle trace and filtered goroutine dump are "
+                   "validated by TLC against StreamRunObs; distinct = distinct scenario configuration; non-trivial = a streaming producer ran",
+           "exhaustive": False, "families": gstats, "model": {"trees": len(pl), "distinct": mc.distinct, "generated": mc.generated, "wall_s": round(mc.wall_s, 1),
+                                                               "invariants": streams.MC_INV + ["deadlock freedom"]},
+           "lifecycle_lines": len(lines), "trace_validation_states": res["states"], "producers_told_closed": told,
+           "runs_failed_outside_scope": len(failed), "rejected": len(bad), "confirmed": len(confirmed), "unreproduced": unrepro,
+           "selftest": st, "known_findings": n_known}
+    vlib.write_evidence("C19", tier, "model_checking", cov, assumptions=[
+        "goroutine-level quiescence is observed by a goroutine dump of the real process filtered to frames in eino/schema, eino/compose and the "
+        "harness producers, taken after every producer signalled (bounded wait) and polled for at most ~0.4 s while goroutines unwind",
+        "node bodies, branch conditions and handlers are the harness's: they close every stream they are given (the documented user contract)",
+        "scenarios in which the run fails although no error chunk was injected are outside the statement and reported as notes",
+        "the composition of the engine with the stream mechanism is not model checked as one system: the stream half is model checked on "
+        "plumbing-shaped reader trees (Streams.tla), the engine half is bound by the real runs",
+        "TLC, the Json community module and the Go harness are trusted"],
+        wall_s=time.time() - t0, violations=n_new)
+    log("[C19] %s: %d scenarios validated (%d distinct non-trivial), %d rejected, %d confirmed (%d known), %.0fs" % (
+        "VIOLATION" if code else "ok", len(idx), len(sigs), len(bad), len(confirmed), n_known, time.time() - t0))
+    return code
+
+
+def selftest19(lines, idx):
+    victim = None
+    for cid, (c, ls) in idx.items():
+        if any('"ev":"fin"' in ln for ln in ls) and ls[-1] == '{"ev":"dump","parked":[]}' and '"timeout":false' in ls[-2] and '"err":""' in "".join(ls):
+            victim = ls
+            break
+    if victim is None:
+        return {"ran": False}
+    corrupted = victim[:-1] + ['{"ev":"dump","parked":["schema.(*stream).send<compose.vflProduce"]}']
+    k = max(i for i, ln in enumerate(victim) if '"ev":"fin"' in ln)
+    dropped = victim[:k] + victim[k + 1:]
+    out = {"ran": True}
+    for name, tr in (("corrupt_one_field", corrupted), ("drop_one_line", dropped)):
+        r = vlib.validate_traces("StreamRunObs", "StreamRunObs.cfg", tr, nproc=1)
+        out[name] = {"rejected": bool(r["bad"]), "reason": r["bad"][0][2] if r["bad"] else ""}
+        if not r["bad"]:
+            raise Inconclusive("self-test: %s of a recorded lifecycle trace was not rejected" % name)
+    return out
+
+
+def replay08(path):
+    d = json.load(open(path))
+    c = d["case"].get("case")
+    if c is None:
+        raise Inconclusive("this replay file holds a race report, re-run bin/check C08 to reproduce it")
+    reps = 1 if c["mode"] == "seq" else 40
+    again = [dict(c, id="%s#%d" % (c["id"], k), seed=c["seed"] + k) for k in range(reps)]
+    lines, _, _, _ = streams.run_schema(again)
+    bad, _, _ = judge(lines)
+    for cid, reason in sorted(bad.items()):
+        log("  %s rejected: %s" % (cid, reason))
+    if any(r == d["detail"] for r in bad.values()):
+        log("VIOLATION property=C08 replay=%s" % path)
+        return 1
+    log("[C08] replay: not reproduced in %d runs" % reps)
+    return 0
+
+
+def replay19(path):
+    d = json.load(open(path))
+    sc = d["case"]["scenario"]
+    lines, _ = streams.run_leak([sc])
+    bad, notes, _ = judge19(lines)
+    for ln in lines[1:]:
+        log("  " + ln)
+    if bad:
+        log("VIOLATION property=C19 replay=%s" % path)
+        return 1
+    log("[C19] replay: not reproduced")
+    return 0
+
+
+CHECKS = {"C08": c08, "C19": c19}
+REPLAY = {"C08": replay08, "C19": replay19}
